@@ -31,8 +31,11 @@ func UriTable(v interface{}) M {
 		switch t := x.(type) {
 		case string:
 			e := M{}
-			_, err := url.ParseRequestURI(t)
-			e["req"] = err == nil
+			// validateURI: the string without its fragment is a request target, the whole string a URL
+			before, _, _ := strings.Cut(t, "#")
+			_, err := url.ParseRequestURI(before)
+			_, err2 := url.Parse(t)
+			e["req"] = err == nil && err2 == nil
 			if u, err := url.Parse(t); err == nil {
 				e["norm"] = u.String()
 			} else {
@@ -257,6 +260,19 @@ var keyMuts = []mut{
 		firstKey(p)["publicKeyJwk"] = j
 		delete(firstKey(p), "publicKeyBase58")
 	}},
+	{"key/ec-jwk-without-y", func(r *rand.Rand, p M) {
+		j := M{"kty": "EC", "crv": "P-256", "x": "PUymIqdtF_qxaAqPABSw-C-owT1KYYQbsMKFM-L9fJA"}
+		switch r.Intn(3) {
+		case 0:
+		case 1:
+			j["y"] = ""
+		case 2:
+			j["y"] = 5
+		}
+		firstKey(p)["type"] = "JsonWebKey2020"
+		firstKey(p)["publicKeyJwk"] = j
+		delete(firstKey(p), "publicKeyBase58")
+	}},
 	{"key/jwk-rsa-ok", func(r *rand.Rand, p M) {
 		firstKey(p)["publicKeyJwk"] = M{"kty": "RSA", "n": "abc", "e": "AQAB"}
 		delete(firstKey(p), "publicKeyBase58")
@@ -309,6 +325,17 @@ var svcMuts = []mut{
 	{"svc/type-31", func(r *rand.Rand, p M) { firstService(p)["type"] = ident(r, 31) }},
 	{"svc/type-30-ok", func(r *rand.Rand, p M) { firstService(p)["type"] = ident(r, 30) }},
 	{"svc/type-multibyte", func(r *rand.Rand, p M) { firstService(p)["type"] = strings.Repeat("é", 14+r.Intn(3)) }},
+	{"svc/type-30-two-byte-characters-ok", func(r *rand.Rand, p M) { firstService(p)["type"] = strings.Repeat(pick(r, []string{"é", "ü", "Ж"}), 30) }},
+	{"svc/type-31-two-byte-characters", func(r *rand.Rand, p M) { firstService(p)["type"] = strings.Repeat("é", 31) }},
+	{"svc/endpoint-with-fragment-ok", func(r *rand.Rand, p M) {
+		u := pick(r, []string{"https://example.com#didcomm", "https://example.com/#f", "https://example.com/a?b=c#d", "did:example:123#svc", "https://example.com#"})
+		if r.Intn(2) == 0 {
+			firstService(p)["serviceEndpoint"] = u
+		} else {
+			firstService(p)["serviceEndpoint"] = []interface{}{u}
+		}
+	}},
+	{"svc/endpoint-fragment-only", func(r *rand.Rand, p M) { firstService(p)["serviceEndpoint"] = pick(r, []string{"#f", "rel#f", "?q#f"}) }},
 	{"svc/endpoint-missing", func(r *rand.Rand, p M) { delete(firstService(p), "serviceEndpoint") }},
 	{"svc/endpoint-null", func(r *rand.Rand, p M) { firstService(p)["serviceEndpoint"] = nil }},
 	{"svc/endpoint-empty", func(r *rand.Rand, p M) { firstService(p)["serviceEndpoint"] = "" }},
